@@ -38,6 +38,7 @@ func c02Opts(thorough bool) opCaseOpts {
 
 func checkC02(c *core.Ctx) {
 	defer sweepC02(c)
+	defer selfCases(c, true, "elementwise", "linalg", "move")
 	defer soakC02(c)
 	defer sweepConcatN(c, true)
 	defer gridC02(c)
